@@ -52,6 +52,9 @@ pub fn loaded_keys(alg: &'static SignatureAlgorithm, pkcs8: &[u8]) -> Vec<(Strin
 		("from_pem_and_sign_algo".into(), KeyPair::from_pem_and_sign_algo(&pem, alg)),
 		("try_from(PrivateKeyDer)".into(), KeyPair::try_from(&any)),
 		("from_pem".into(), KeyPair::from_pem(&pem)),
+		("try_from(&[u8])".into(), KeyPair::try_from(pkcs8)),
+		("try_from(Vec<u8>)".into(), KeyPair::try_from(pkcs8.to_vec())),
+		("try_from(&PrivatePkcs8KeyDer)".into(), KeyPair::try_from(&p8)),
 	]
 }
 
@@ -109,6 +112,31 @@ pub fn run(ctx: &mut Ctx) -> Report {
 			let Ok(cert) = p.real().unwrap().self_signed(&key) else { continue };
 			signers.push(Signer { alg: reported, name: rname, key, remote: None, cert, p, origin: loader, truth_spki: truth.clone() });
 		}
+		// the same document told an algorithm that is *not* its own, through the entry points that
+		// take one: a refusal is the expected answer; whatever is handed out all the same has to sign
+		// like any other key — verifiably under the public key OpenSSL derives from the private key,
+		// under the identifier it reports
+		for told in keys::build_algs() {
+			if alg_name(told) == name || (name.starts_with("rsa") && alg_name(told).starts_with("rsa")) {
+				continue;
+			}
+			for (loader, res) in loaded_keys(told, &pkcs8) {
+				if !loader.contains("sign_algo") {
+					continue;
+				}
+				s.rep.count(&format!("loaded-under-other-algorithm:{}", if res.is_ok() { "ok" } else { "err" }));
+				let Ok(key) = res else { continue };
+				let key = Arc::new(key);
+				let reported = key.algorithm();
+				let rname = alg_name(reported).to_string();
+				let mut p = PCert::empty();
+				p.serial = Some(vec![4]);
+				p.dn = Dn(vec![(DnT::Cn, DnV::Utf8(format!("issuer {} told {} via {}", name, alg_name(told), loader)))]);
+				p.ca = Ca::Ca(None);
+				let Ok(Ok(cert)) = std::panic::catch_unwind(std::panic::AssertUnwindSafe(|| p.real().unwrap().self_signed(&key))) else { continue };
+				signers.push(Signer { alg: reported, name: rname, key, remote: None, cert, p, origin: format!("{} of a {} key told {}", loader, name, alg_name(told)), truth_spki: truth.clone() });
+			}
+		}
 	}
 	for sg in &signers {
 		for round in 0..n {
@@ -165,7 +193,74 @@ pub fn run(ctx: &mut Ctx) -> Report {
 			}
 		}
 	}
-	s.rep.exhaustive.push("every signing algorithm of the build x {local, remote} x {certificate, CSR, CRL}".into());
+	// --- artefacts whose length crosses the DER length-form boundaries (127/128, 255/256, 65535/65536
+	// octets and beyond): one custom extension / attribute value / revoked list sized for it, signed
+	// by a local and by a remote key
+	{
+		let sizes: Vec<usize> = if s.ctx.thorough { vec![60, 150, 400, 65_000, 65_300, 65_600, 70_000, 140_000, 1_100_000] } else { vec![60, 150, 400, 65_300, 65_600, 70_000] };
+		let picks: Vec<usize> = signers.iter().enumerate().filter(|(_, x)| x.name == "ed25519" && (x.origin == "local" || x.origin == "remote")).map(|(i, _)| i).collect();
+		for &si in &picks {
+			for &n in &sizes {
+				let sg = &signers[si];
+				let mut p = PCert::default_like();
+				p.serial = Some(vec![7]);
+				if cfg!(feature = "nocrypto") {
+					p.kid = Kid::Pre(vec![1; 20]);
+				}
+				// a well-formed OCTET STRING of n content octets as the extension value
+				let mut content = vec![0x04];
+				content.extend(crate::props::certcase::der_len(n));
+				content.extend(std::iter::repeat(0x5a).take(n));
+				p.custom = vec![Custom { oid: vec![1, 3, 6, 1, 4, 1, 99999, 1], critical: false, content }];
+				if let Some(r) = &sg.remote {
+					r.log.lock().unwrap().clear();
+				}
+				if let Some(rp) = p.real() {
+					if let Ok(Ok(c)) = std::panic::catch_unwind(std::panic::AssertUnwindSafe(|| rp.clone().self_signed(&sg.key))) {
+						let der = c.der().to_vec();
+						check_artefact(&mut s, sg, "cert", &der, &format!("spec-cert {} {} self {}", p.sexp(), key_sexp(&*sg.key), hex(&der)));
+						s.rep.count(&format!("large_artefact:cert:{}", if der.len() >= 65536 { "64KiB+" } else if der.len() >= 256 { "256+" } else { "small" }));
+					}
+					let mut q = p.clone();
+					q.serial = None;
+					if let Some(r) = &sg.remote {
+						r.log.lock().unwrap().clear();
+					}
+					if let Some(rq) = q.real() {
+						if let Ok(Ok(c)) = std::panic::catch_unwind(std::panic::AssertUnwindSafe(|| rq.serialize_request(&sg.key))) {
+							let der = c.der().to_vec();
+							check_artefact(&mut s, sg, "csr", &der, &format!("spec-csr {} {} () {}", q.sexp(), key_sexp(&*sg.key), hex(&der)));
+						}
+					}
+				}
+				// a revocation list with n / 30 entries
+				let mut crl = gen_crl(&mut s.rng);
+				crl.this = Dt::ymd(2024, 1, 1);
+				crl.next = Dt::ymd(2025, 1, 1);
+				if cfg!(feature = "nocrypto") {
+					crl.kid = Kid::Pre(vec![1; 20]);
+				}
+				let entry = crl.revoked.first().cloned();
+				if let Some(mut e) = entry.or_else(|| gen_crl(&mut s.rng).revoked.first().cloned()) {
+					e.reason = None;
+					e.invalidity = None;
+					crl.revoked = (0..(n / 30).max(1)).map(|i| { let mut x = e.clone(); x.serial = vec![1, (i >> 16) as u8, (i >> 8) as u8, i as u8]; x }).collect();
+					if let Some(r) = &sg.remote {
+						r.log.lock().unwrap().clear();
+					}
+					if let Some(rc) = crl.real() {
+						if let Ok(Ok(c)) = std::panic::catch_unwind(std::panic::AssertUnwindSafe(|| rc.signed_by(&sg.cert, &sg.key))) {
+							let der = c.der().to_vec();
+							check_artefact(&mut s, sg, "crl", &der, &format!("spec-crl {} {} {}", crl.sexp(), issuer_sexp(&sg.p, &*sg.key), hex(&der)));
+							s.rep.count(&format!("large_artefact:crl:{}", if der.len() >= 65536 { "64KiB+" } else { "smaller" }));
+						}
+					}
+				}
+			}
+		}
+		s.rep.exhaustive.push("certificates, requests and revocation lists sized across the DER length-form boundaries up to 64 KiB and beyond (local and remote Ed25519 signer)".into());
+	}
+	s.rep.exhaustive.push("every signing algorithm of the build x {local, remote} x {certificate, CSR, CRL}; every key document told each algorithm that is not its own through the four explicit-algorithm entry points".into());
 	// --- every (subject algorithm, issuer algorithm) pair, through `signed_by` with the key and
 	// through a parsed request: the inner and outer identifiers are the *issuer's*
 	#[cfg(not(feature = "nocrypto"))]
